@@ -18,6 +18,7 @@ Inductive sd : Type :=
 | DF (t : fty)                         (* a packet field type of Model/C06.v *)
 | DSeq (l : list sd)                   (* pk.Tuple{...} / a sequence of reads / the arguments of Scan *)
 | DAry (e : sd)                        (* pk.Array(&[]T): VarInt count, negative -> error, then elements *)
+| DLoop (e : sd)                       (* VarInt count, then `for i := 0; i < int(count); i++ { e }` (negative: no iteration) *)
 | DOption (e : sd)                     (* pk.Option[T,*T]: Boolean, then T when true *)
 | DChoice (k : N) (a b : sd)           (* pk.Opt{Has: ...} / if cond {a} else {b}: decided by the data *)
 | DExt (kind : string)                 (* foreign decoder: chat.Message, level.Chunk, NBT(..), FixedBitSet *)
@@ -42,6 +43,7 @@ Section Read.
     | DSeq l => (fix seq (l : list sd) : dec unit :=
                    match l with [] => Ret tt | x :: t => _ <- sdr x ;; seq t end) l
     | DAry e => rd_ary fuel (fun _ => sdr e)
+    | DLoop e => l <- rd_varint ;; rep fuel (fun _ : N => sdr e) 0%N (Z.to_N l)
     | DOption e => ReadByte (fun b => if (b =? 0)%N then Ret tt else sdr e)
     | DChoice k a b => if oracle k then sdr a else sdr b
     | DExt k => ext k
